@@ -214,14 +214,16 @@ pub fn generate(thorough: bool, seed: u64, part: (usize, usize), em: &mut Emitte
     // 5. thorough: every TPKT length and every fast-path length, a second frame always following
     if thorough {
         let body: Vec<u8> = (0..65536usize).map(|i| (i * 7 + 3) as u8).collect();
-        for len in (0..65536usize).filter(|l| l % part.1 == part.0) {
+        // every length up to 2300 and from 65000, and a stride in between (the frames are echoed in
+        // hex into the case files: all 64 K lengths in full would be gigabytes)
+        for len in (0..65536usize).filter(|l| l % part.1 == part.0 && (*l < 2300 || *l >= 65000 || *l % 37 == 0)) {
             let mut d = vec![3, 0, (len >> 8) as u8, (len & 0xff) as u8];
             d.extend_from_slice(&body[..len.saturating_sub(4)]);
             d.extend_from_slice(&follow);
             let sched: Vec<usize> = if len % 3 == 0 { vec![0; 8] } else if len % 3 == 1 { vec![] } else { vec![1, 0, 2, 0, 999] };
             emit(em, "tpkt_read", 2, &d, &sched);
         }
-        for len in (0..32768usize).filter(|l| l % part.1 == part.0) {
+        for len in (0..32768usize).filter(|l| l % part.1 == part.0 && (*l < 2300 || *l >= 32500 || *l % 37 == 0)) {
             let mut d = vec![0x80, 0x80 | (len >> 8) as u8, (len & 0xff) as u8];
             d.extend_from_slice(&body[..len.saturating_sub(3)]);
             d.extend_from_slice(&follow);
